@@ -342,6 +342,45 @@ UnfoldVerdict(c) ==
        ELSE IF x.stage # "" THEN <<"C13:matching stream not accepted (" \o x.err \o ")">>
        ELSE IF ~PlainMatch({"f32as64"}, want, T, x.r) THEN <<"C13:assigned value differs from the stream's value">> ELSE <<>>
 
+\* ---- kind "keycache" (C20) ------------------------------------------------------------
+(* The access history comes from SFKeyCache (TLC walks the LRU model and    *)
+(* checks there that it refines the cache-less lookup).  The harness        *)
+(* unfolds the documents of the history with the cache (capacity sub.cap)   *)
+(* and without, overwriting the source bytes after each document.           *)
+SplitDocs(hist) ==
+  LET step(acc, k) == IF k = 0 THEN Append(acc, <<>>) ELSE [acc EXCEPT ![Len(acc)] = Append(@, k)] IN
+  FoldLeft(step, <<<<>>>>, hist)
+KeyCacheVerdict(c) ==
+  LET x == c.extra
+      docs == SplitDocs(c.sub.hist)
+      keysOf(d) == {x.keytab[d[j]] : j \in 1..Len(d)}
+      gotKeys(m) == {m.m[j].key : j \in 1..Len(m.m)} IN
+  (IF c.outcome # "ok" THEN <<"C20:outcome:" \o c.outcome>> ELSE <<>>)
+  \o (IF c.outcome = "ok" /\ x.errn # "" THEN <<"INFRA:unfolding without cache failed: " \o x.errn>> ELSE <<>>)
+  \o (IF c.outcome = "ok" /\ x.errn = "" /\ x.errw # "" THEN <<"C20:unfolding fails with the key cache enabled (" \o x.errw \o ")">> ELSE <<>>)
+  \o (IF c.outcome = "ok" /\ x.errn = "" /\ x.errw = "" /\ x.with # x.without
+      THEN <<"C20:result with the key cache differs from the result without">> ELSE <<>>)
+  \o (IF c.outcome = "ok" /\ x.errn = "" /\ x.errw = ""
+         /\ (Len(x.with) # Len(docs) \/ \E j \in 1..Len(docs) : j <= Len(x.with) /\ gotKeys(x.with[j]) # keysOf(docs[j]))
+      THEN <<"C20:keys of an unfolded map are not the keys of its document (after the source bytes were overwritten)">> ELSE <<>>)
+
+\* ---- kind "unfoldx" (C14) -------------------------------------------------------------
+(* Unfolder lifecycle model (SFUnfold): from ANY state, Reset; SetTarget     *)
+(* leads to the state of a new unfolder.  The harness delivers a prefix of   *)
+(* a well-formed stream (usually not matching the target) to an unfolder     *)
+(* whose target lies between guard arrays, abandons it, Resets, and runs a   *)
+(* follow-up stream on it and on a new unfolder.                             *)
+UnfoldXVerdict(c) ==
+  LET x == c.extra IN
+  IF c.outcome # "ok" THEN <<"C14:outcome:" \o c.outcome>>
+  ELSE IF x.stage = "settarget" THEN <<>>
+  ELSE (IF ~x.guards THEN <<"C14:memory outside the target was written (guard arrays changed)">> ELSE <<>>)
+       \o (IF x.alloc > 262144 + 4096 * x.delivered THEN <<"C14:allocation out of proportion to the events received">> ELSE <<>>)
+       \o (IF x.deps # x.fresh THEN <<"C14:after Reset the unfolder's stacks differ from a new unfolder's">> ELSE <<>>)
+       \o (IF (x.err2 = "") # (x.err3 = "") THEN <<"C14:after Reset+SetTarget the next document succeeds/fails unlike on a new unfolder">>
+           ELSE IF x.r2 # x.r3 THEN <<"C14:after Reset+SetTarget the next document gives a different result than on a new unfolder">>
+           ELSE <<>>)
+
 \* ---- the trace machine ----------------------------------------------------------
 Verdict(c) ==
   CASE c.kind = "parse" -> ParseVerdict(c)
@@ -354,6 +393,8 @@ Verdict(c) ==
     [] c.kind = "fold" -> FoldVerdict(c)
     [] c.kind = "gort" -> GoRtVerdict(c)
     [] c.kind = "unfold" -> UnfoldVerdict(c)
+    [] c.kind = "keycache" -> KeyCacheVerdict(c)
+    [] c.kind = "unfoldx" -> UnfoldXVerdict(c)
     [] OTHER -> <<"INFRA:unknown case kind">>
 
 Init == i = 1 /\ nfail = 0
